@@ -484,7 +484,12 @@ impl PartialEq<rt::rwlock::Action> for Action {
 #[cfg(feature = "verif-hooks")]
 impl Operation {
     pub(crate) fn verif_dump(&self) -> String {
-        format!("{}:{:?}", self.obj.index, self.action)
+        format!(
+            "{}:{:?}{}",
+            self.obj.index,
+            self.action,
+            if self.blocking { "!" } else { "" }
+        )
     }
 }
 
